@@ -1221,7 +1221,9 @@ func TestVerifC27(t *testing.T) {
 		"non-trivial = the object is valid and its document nests at least one other hinted object or a list; " +
 		"every case is repeated (a) built by the same constructors at fixed instants of a virtual clock (whole second / millisecond / microsecond / nanoseconds; " +
 		"then every time field of the built object moved to a non-UTC location, and the k-th time field set to the zero time, by reflection), " +
-		"(b) decoded after four decode histories in which every string of the document was first decoded in the other role (address / public key)")
+		"(b) decoded after four decode histories in which every string of the document was first decoded in the other role (address / public key), " +
+		"(c) decoded by an encoder in which every decoder is registered under a compatible but different version than the document carries " +
+		"(patch+1, minor+1, below the data; thorough: two registrations in either order) - the decoded object must keep the hint of the data")
 	r.Assume("objects are built through exported constructors only; the five isaacstates handover messages with unexported constructors are built field-for-field by reflection")
 	r.Assume("in the plain cases signing times come from the real constructors (wall clock); voteproof ids and uuid fields are random; they are data, not control flow")
 	r.Assume("in the time variants localtime.Now() reads the virtual clock of vsched (util/localtime/time_sync.go compiled with time.Now -> vtime.Now); " +
@@ -1231,6 +1233,27 @@ func TestVerifC27(t *testing.T) {
 
 	enc := vfxNewEncoder()
 	cases := c27Cases(r.Thorough())
+
+	// version skew: the same decoders registered under compatible but different versions
+	unversioned := c27UnversionedTypes(cases)
+	skews := c27SkewEncoders(r.Thorough(), unversioned)
+
+	{
+		names := make([]string, len(skews))
+		for i := range skews {
+			names[i] = skews[i].name
+		}
+
+		r.Set("version_skews", names)
+
+		var uv []string
+		for ty := range unversioned {
+			uv = append(uv, ty.String())
+		}
+
+		sort.Strings(uv)
+		r.Set("version_skew_not_applied_to_string_decoded_types", uv)
+	}
 
 	// registry coverage, computed from launch.Hinters
 	covered := map[string]int{}
@@ -1305,6 +1328,7 @@ func TestVerifC27(t *testing.T) {
 
 		c27TimeVariants(t, r, enc, c)
 		c27CacheVariants(t, r, enc, c)
+		c27SkewVariants(t, r, skews, c)
 	}
 
 	c27FreshCache()
